@@ -314,8 +314,7 @@ def run_task(task):
     elif what == "free":
         mcharness.clear_dir(outd)
         try:
-            r = subprocess.run([common.PY, "-m", "cutadapt"] + argv_for(f, paths, outd, 2), stdout=subprocess.PIPE,
-                               stderr=subprocess.PIPE, timeout=30)
+            r = common.run_group([common.PY, "-m", "cutadapt"] + argv_for(f, paths, outd, 2), timeout=30)
             s = mcharness.RunSummary()
             s.exit = r.returncode
             s.exc = None
